@@ -76,6 +76,38 @@ EXPECTED_CALLS = [
     "ServiceReplica: return leader.Handle(wait, req, stream)"
 ]
 
+EXPECTED_CMD = [
+    "Sync: if sy.sync == nil || sy.wait.IsClosed()",
+    "Sync: return status.Error(codes.Unavailable, fmt.Sprintf(\"syncer(%s) is not running\", addr))",
+    "Sync: sy.wait.WgAdd(1)",
+    "Sync: err := sy.sync.ServiceReplica(req, stream)",
+    "Sync: if err != nil",
+    "Sync: if errors.Is(err, syncer.ErrBreak)",
+    "Sync: sc.getRunWait().Close(err)",
+    "Sync: if errors.Is(err, syncer.ErrRole)",
+    "Sync: sy.wait.Close(err)",
+    "Sync: return err",
+    "runCluster: runWait.Sleep(1 * time.Second)",
+    "runCluster: if role == cluster.RoleLeader",
+    "runCluster: err = sy.RunLeader()",
+    "runCluster: if role == cluster.RoleFollower",
+    "runCluster: err = sy.RunFollower(leader)",
+    "runCluster: syncerWait.Close(err)",
+    "runCluster: syncerWait.Close(fmt.Errorf(\"panic : %v\", i))",
+    "runCluster: sc.clusterTicker(syncerWait, role, elect, cfg.Input.Address(), key)",
+    "runCluster: sy.Stop()",
+    "runCluster: syncerWait.WgWait()",
+    "runCluster: err = syncerWait.Error()",
+    "runCluster: if role == cluster.RoleLeader",
+    "runCluster: terr := elect.Resign(ctx)",
+    "runCluster: if errors.Is(err, syncer.ErrLeaderHandover)",
+    "runCluster: runWait.Sleep(10 * time.Second)",
+    "runCluster: if errors.Is(err, syncer.ErrLeaderTakeover)",
+    "runCluster: time.Sleep(1 * time.Second)",
+    "runCluster: if errors.Is(err, syncer.ErrBreak)",
+    "runCluster: time.Sleep(1 * time.Second)"
+]
+
 EXPECTED_CODES = ["CLEAR=3", "CONTINUE=1", "ERROR=11", "FAILURE=12", "FAULT=10", "HANDOVER=2", "META=0"]
 
 PROP = {
@@ -89,14 +121,20 @@ PROP = {
         "GunYu.Props.C16.unjoinable_discards",
         "GunYu.Props.C16.unjoinable_discards_session",
         "GunYu.Props.C16.gap_discards",
+        "GunYu.Props.C16.gap_discards_session",
         "GunYu.Props.C16.collected_discards",
         "GunYu.Props.C16.clear_deletes",
+        "GunYu.Props.C16.clear_deletes_any",
         "GunYu.Props.C16.resynchronises",
+        "GunYu.Props.C16.resynchronises_keeps_copy",
         "GunYu.Props.C16.ahead_gets_handover",
+        "GunYu.Props.C16.handover_leader_steps_down",
     ],
-    "expected_facts": {"c16_gap_threshold": 10485760, "c16_codes": EXPECTED_CODES, "c16_calls": EXPECTED_CALLS},
+    "expected_facts": {"c16_gap_threshold": 10485760, "c16_codes": EXPECTED_CODES, "c16_calls": EXPECTED_CALLS, "c16_cmd": EXPECTED_CMD},
     "harness": [{"name": "C16", "pkg": "./syncer/", "test": "TestVerifC16",
-                 "timeout_quick": "10m", "timeout_thorough": "40m"}],
+                 "timeout_quick": "30m", "timeout_thorough": "60m"},
+                {"name": "C16cmd", "pkg": "./cmd/", "test": "TestVerifC16Cmd",
+                 "timeout_quick": "30m", "timeout_thorough": "60m"}],
     "driver": "drv_C16",
     "rule": "one op per pass of the REAL ReplicaFollower.Run (handshake .. first error; Run's error pauses are intercepted through its WaitCloser, "
             "its logged error gives the outcome) talking over real gRPC on loopback (generated client/server code, real serialisation) to the REAL "
@@ -113,12 +151,22 @@ PROP = {
             "disk: directories of both ids with either or none current, fresh process}. Every pair runs uncut, then cut after EVERY message (sample "
             "of 6 when more; 40 thorough), quiescent or abrupt (bytes still in the follower's pipe are lost; the observed number is an op input, and a "
             "loss in a quiescent cut is a violation), then the SAME Run goes on against later leader states (or a new process after a restart); two "
-            "more sessions per pair with the leader's input acting mid-session. Compared with the Lean model: every message the follower read (code, "
+            "more sessions per pair with the leader's input acting mid-session; two with the leader STOPPED in the middle of a transfer (its syncer's "
+            "wait closed after 1-4 CONTINUE messages: clean end of stream or FAULT, both observed and passed to the model); an ahead follower "
+            "against a leader whose input has moved to another id (CLEAR before the ahead test); per run 2 (6 thorough) transfers of 1.1-1.5 MiB "
+            "(larger than the follower's pipe) cut abruptly and continued. Second harness C16cmd: the real (*SyncerCmd).Sync (cmd/syncer_api.go) "
+            "around the real ServiceReplica on a real memory channel, leader states x requests (handshake, behind, equal, ahead by 1 and more, "
+            "other id): first answer and whether Sync stopped this input's syncer (role error) or all (break error) compared with the model's "
+            "syncReact; monitor HANDOVER <=> the leader's syncer is stopped with ErrLeaderHandover; end to end: the real Run of an ahead follower "
+            "over gRPC against the registered SyncerCmd ends with ErrLeaderTakeover, the leader's syncer wait closed, the follower's cache intact. "
+            "Compared with the Lean model: every message the follower read (code, "
             "id, aof, offset, size, data), the outcome (stage, class) and the follower's store afterwards (disk: every run-id directory parsed from "
             "the files; memory: what the channel serves). Monitors independent of the model: every byte/snapshot under an id is a byte some state of "
             "the leader held under the same (id, offset) or was stored there before; segments contiguous, files and channel API agree, offered ranges "
-            "readable; ahead follower => HANDOVER and untouched cache (untouched also when cut earlier); the run fails when more than 2% of the cases "
-            "cannot be built or a class of the list above did not occur. corpus/C16: defect witnesses and the boundary states. "
+            "readable; ahead follower => HANDOVER and untouched cache (untouched also when cut earlier); when more than 2% of the cases cannot be built the "
+            "harness itself fails (a broken tie, not a verdict about the property); classes that did not occur in a run are evidence counters "
+            "(class_not_generated_*); a quiescent cut is made when the follower's channel reports every sent byte as stored (explicit condition, 120 s "
+            "hard limit; if the limit is hit the cut counts as abrupt). corpus/C16: defect witnesses and the boundary states. "
             "distinct_nontrivial = distinct (backend, relation, outcome, #messages, leader shape, static?) with at least two CONTINUE chunks",
     "trusted": ["grpc-go on loopback TCP between the real Run and the real ServiceReplica (no fake transport); the harness's stream wrapper, "
                 "WaitCloser/Logger wrappers of the follower and Input/Channel wrappers of the leader",
@@ -130,8 +178,19 @@ PROP = {
                     "SetRunId/DelRunId/VerifyRunId, memory_channel.go StartPoint/SetRunId/DelRunId)",
                     "the cache a leader's reader is opened on is a faithful copy of the source's history of the channel's run id (C05/C06/C08); the "
                     "leader may change between and inside requests (four read points per request), but a stream reader that is already open is "
-                    "modelled as serving its own run id to the end (plus the tail appended meanwhile): what the channel does to OPEN readers when "
-                    "its input re-scans or relabels the cache is C05's (finding 're-scan with readers open')",
+                    "modelled as serving its own run id to the end (plus the tail appended meanwhile, or stopped with the leader): that an id "
+                    "switch of the channel closes what is open on the old index is C05's (fixed in /repo 2df2ed4; memory backend 8590cdd)",
+                    "hypothesis hq of the theorems, not discharged: the leader's channel run id is never the literal \"?\" (the input sets it from "
+                    "the source's 40-hex replication id)",
+                    "consequence of the D16 repair, intended: after a PSYNC2 fail-over of the source the LEADER relabels its cache (its histories "
+                    "join) while every follower deletes its whole copy and restarts at the leader's newest offset without a snapshot; a follower "
+                    "promoted soon afterwards holds a cache that starts after the target's resume position (a full sync there), and HANDOVER is "
+                    "not reachable across a fail-over; likewise an AHEAD follower that meets a leader whose input has already moved to another id "
+                    "gets CLEAR ('wait a moment' precedes the ahead test) and deletes its copy (theorem clear_deletes_any, counter "
+                    "ahead_answered_clear) — that copy belongs to the superseded id and would be dropped by the next preSync anyway",
+                    "resynchronises / AtLeaderTip means: positioned at the leader's end, holding what arrived since — the leader's older bytes "
+                    "only where the follower's own copy joined (resynchronises_keeps_copy); after a discard the follower holds no snapshot and "
+                    "nothing older than the leader's newest offset at that moment",
                     "cache contents at the abstraction of C05's Log: one contiguous byte range + optional snapshot per run id (contiguity of the "
                     "store is by this representation plus the theorem that the stream writer is only opened at its end; the harness's file parser "
                     "and the API/file comparison check it on the real store); segment rotation, reference counts and the collector are C05's",
@@ -141,9 +200,14 @@ PROP = {
                     "goes on sending after selfInspection's CLEAR) are not part of the compared trace",
                     "model of the repaired behaviour: D16 (preSync relabelling), CLEAR answer taken as snapshot announcement, reader of another run id "
                     "streamed by sendData (all three fixed in /repo), D14 (C05)",
-                    "not generated: leader/follower Stop() in the middle of a transfer (clean EOF), transfers above 1 MiB (pipe back-pressure), "
-                    "FAULT answers (only produced on Send failures / reader errors)"],
-    "partial": [],
+                    "not generated: the follower's own Stop() in the middle of a transfer; back-pressure of the follower's pipe is not forced "
+                    "(transfers above the pipe size are generated, but the real writers drain it quickly); the syncer's channel shared between the "
+                    "follower and leader roles of one process (runFollower/RunLeader on one channel object) — the harness owns one channel per role"],
+    "partial": ["'is offered leadership' is verified on both sides up to the closed wait: follower — Run returns ErrLeaderTakeover with its cache "
+                "intact; leader — HANDOVER makes ServiceReplica return a role error and the real SyncerCmd.Sync close this input's syncer wait "
+                "(theorem handover_leader_steps_down + harness C16cmd). What cmd/syncer.go runCluster does next (sy.Stop, elect.Resign, 10 s pause "
+                "of the old leader, 1 s pause and campaign of the follower) is NOT executed by this check: it is pinned by the source facts c16_cmd "
+                "(order of the calls and conditions) and the lease side is C15's"],
 }
 
 MANIFEST = {
